@@ -701,3 +701,41 @@ def infguard(repo):
         raise AnalysisError(f"constraints.py: only {res.instances} int(<bounds>) conversions found")
     res.analysed = [m.rel]
     return res
+
+
+def constagree(repo):
+    """R-CONSTAGREE (C05/C07): two notions of "constant" must not disagree.  constraints.py treats a field whose size has
+    inferred minimum == maximum as fixed-size; the back end obtains that size from ir_util.constant_value.  So for the
+    expression kinds whose value the bounds pass can pin down without constant_value being able to fold them -- references
+    to constant virtual fields, and functions such as `$upper_bound(x) - 253` -- constant_value must consult the computed
+    type (is_constant_type) instead of answering None.  Otherwise `let k = 2` / `1 [+k] UInt y` emits `None` into the
+    header."""
+    res = RuleResult("R-CONSTAGREE")
+    m = repo.mod("compiler/util/ir_util.py")
+    cv = [f for f in m.top_funcs() if f.name == "constant_value"]
+    if not cv:
+        raise AnalysisError("ir_util.constant_value not found")
+    typed = {f.name for f in m.top_funcs() if "is_constant_type" in ast.unparse(f.node)}
+
+    def consults_type(stmts):
+        for st in stmts:
+            for n in ast.walk(st):
+                if isinstance(n, ast.Call) and (call_name(n) or "").split(".")[-1] in typed | {"is_constant_type"}:
+                    return True
+        return False
+    branches = {}
+    for n in ast.walk(cv[0].node):
+        if isinstance(n, ast.If) and isinstance(n.test, ast.Compare) and "which_expression" in ast.unparse(n.test.left) \
+                and isinstance(n.test.comparators[0], ast.Constant):
+            branches[n.test.comparators[0].value] = n.body
+    for kind in ("field_reference", "function", "constant_reference"):
+        res.instances += 1
+        if kind not in branches:
+            raise AnalysisError(f"constant_value: no branch for {kind}")
+        if not consults_type(branches[kind]):
+            res.add(f"{m.rel}|constant_value|{kind}", f"constant_value never looks at the computed type of a {kind}: where the bounds "
+                    "pass has established a single value (`let k = 2` / `[+k]`, `$upper_bound(x) - 253`) it still answers None, while "
+                    "constraints.py already treats the field as fixed-size -- the back end writes `None` into the header",
+                    m.rel, branches[kind][0].lineno, "constant_value")
+    res.analysed = [m.rel]
+    return res
